@@ -329,14 +329,14 @@ class G:
             if which == 0:
                 s = self.i(0, 16)
                 e = self.i(s, 16)
-                if self.chance(1):
-                    s, e = self.pick([(0, 255), (3, 300), (256, 256), (300, 301)])
+                if self.chance(3):
+                    s, e = self.pick([(0, 255), (3, 300), (256, 256), (300, 301), (250, 260), (255, 257), (10, 256), (0, 256), (1, 256), (255, 256), (0, 511)])
                 return ["tern", "Substring", base, ["int", s] if const else self.wrapU(["int", s], o), ["int", e] if (const or self.chance(5)) else self.wrapU(["int", e], o)]
             if which == 1 and L >= 5:
                 s = self.i(0, 16)
                 l = self.i(0, 16 - s)
-                if self.chance(1):
-                    s, l = self.pick([(0, 255), (0, 256), (256, 0), (255, 1)])
+                if self.chance(3):
+                    s, l = self.pick([(0, 255), (0, 256), (256, 0), (255, 1), (255, 255), (1, 255), (256, 1), (0, 0), (255, 0)])
                 return ["tern", "Extract", base, ["int", s] if const else self.wrapU(["int", s], o), ["int", l] if (const or self.chance(5)) else self.wrapU(["int", l], o)]
             s = self.i(0, 16) if self.chance(9) else self.pick([255, 256, 17])
             return ["suffix", base, ["int", s] if const else self.wrapU(["int", s], o)]
